@@ -172,5 +172,5 @@ func TestVerifC07Ocsp(t *testing.T) {
 			return w(w(w(list)))
 		}},
 	}
-	vC07Drive(t, decs, nil, fams, 500, 20000)
+	vC07Drive(t, decs, nil, fams, 500, 8000)
 }
